@@ -176,6 +176,19 @@ M("tp21_bam_released_before_last_packet", ["C01"], "D32 reverted: the broadcast 
    "                        buf['next_packet_to_send'] += 1\n"),
   ("j1939/j1939_21.py", "                            # done\n                            del self._snd_buffer[bufid]\n                    elif buf['state'] == self.SendBufferState.TRANSMISSION_FINISHED:",
    "                            # done\n                            del self._snd_buffer[bufid]\n                        self.__send_tp_dt(buf['src_address'], buf['dest_address'], data)\n                    elif buf['state'] == self.SendBufferState.TRANSMISSION_FINISHED:"))
+M("tp21_hold_timeout_th", ["C03"], "D34 reverted (J1939-21): Th armed after a hold CTS",
+  ("j1939/j1939_21.py", "time.time() + self.Timeout.T4", "time.time() + self.Timeout.Th"))
+M("tp22_hold_timeout_th", ["C03"], "D34 reverted (J1939-22): Th armed after a hold CTS",
+  ("j1939/j1939_22.py", "time.time() + self.Timeout.T4", "time.time() + self.Timeout.Th"))
+M("tp22_dt_header_inserted_in_place", ["C03"], "D35 reverted: FD data frame header inserted into the stored segment",
+  ("j1939/j1939_22.py", "        data = [(Dtfi & 0xF) | ((session_num & 0xF) << 4), segment_num & 0xFF, (segment_num >> 8) & 0xFF, (segment_num >> 16) & 0xFF] + list(data)\n",
+   "        data.insert(0, (Dtfi & 0xF) | ((session_num & 0xF) << 4))\n        data.insert(1,  segment_num & 0xFF)\n        data.insert(2, (segment_num >> 8) & 0xFF)\n        data.insert(3, (segment_num >> 16) & 0xFF)\n"))
+M("tp21_cts_next_packet_ignored", ["C03"], "D36 reverted: the CTS next-packet number is not followed",
+  ("j1939/j1939_21.py", "                self._snd_buffer[buffer_hash]['next_packet_to_send'] = next_package_number\n", "                pass\n"))
+M("tp21_bam_announced_before_registered", ["C01"], "D33 reverted: BAM written before the session is registered",
+  ("j1939/j1939_21.py", "                # init new buffer for this connection\n                # (registered before the BAM is written: a concurrent send_pgn of this source must see it)\n",
+   "                self.__send_tp_bam(src_address, priority, pgn.value, message_size, num_packets)\n"),
+  ("j1939/j1939_21.py", "                # send BAM\n                self.__send_tp_bam(src_address, priority, pgn.value, message_size, num_packets)\n                # the interval", "                # the interval"))
 M("tp21_grant_ignores_rts_limit", ["C09", "C03"], "responder grant ignores the RTS limit",
   ("j1939/j1939_21.py", "            max_num_packages = min(max_num_packages, num_packages)\n", "            max_num_packages = num_packages\n"))
 M("tp21_hold_ignored", ["C09"], "zero-packet CTS treated as 'continue'",
